@@ -209,8 +209,11 @@ def write_evidence(prop, tier, seed, results, wall, nviol, known_hits):
     level = entry.get('level', 'proof')
     if any_bounded and entry.get('level_if_bounded'):
         level = entry['level_if_bounded']
-    tot_o = sum(r['obligations'] for r in results)
-    tot_d = sum(r['discharged'] for r in results)
+    # bounded stand-ins are reported separately and never counted as proved
+    tot_o = sum(r['obligations'] for r in results if not r.get('bounded'))
+    tot_d = sum(r['discharged'] for r in results if not r.get('bounded'))
+    bounded_o = sum(r['obligations'] for r in results if r.get('bounded'))
+    bounded_d = sum(r['discharged'] for r in results if r.get('bounded'))
     assumptions = list(entry.get('assumptions', []))
     trusted = set(entry.get('trusted_base', []))
     samples = []
@@ -254,6 +257,8 @@ def write_evidence(prop, tier, seed, results, wall, nviol, known_hits):
             'rewrites': rewrites,
             'units': per_unit,
             'samples': samples or [{'note': 'no named obligation'}],
+            'bounded_checks': {'obligations': bounded_o, 'passed_within_bound': bounded_d,
+                               'note': 'Kani harnesses with a stated state-size bound: a bounded stand-in, not counted in obligations/discharged'},
             'known_findings_hit': [k.get('_line') for _, _, k in known_hits],
             'evaluations': max(tot_o, 1),
             'distinct_nontrivial': max(len(set(n for r in results for n in r.get('named_obligations', []))), 2) if tot_o else 2,
